@@ -194,6 +194,7 @@ def run(tier, seed):
     if dead or lacking:
         core.die("vacuous model run: actions never taken %s, case classes without cases %s" % (dead, lacking))
     del r.out
+    phase_s = {"tlc": round(time.time() - t0, 1)}
 
     # ---- render.  P leg: CPython runs the generated functions
     wd = core.subdir("c31p")
@@ -245,6 +246,7 @@ def run(tier, seed):
         fut_p = ex.submit(lm.run_items, wd, "P", ppath, subjects, pitems, "p")
         mods = build_robust(mods, jobs)
         resP = fut_p.result()
+    phase_s["build+cpython_leg"] = round(time.time() - t0 - phase_s["tlc"], 1)
 
     n_drift = 0
     for lf, got in zip(pidx, resP):
@@ -344,13 +346,16 @@ def run(tier, seed):
         "functions_compiled": sum(len(m["funcs"]) for m in mods), "modules": len(mods), "evaluations_per_typing": dict(per_typing),
         "cpython_leg_evaluations": len(pitems), "cpython_leg_drift": n_drift, "functions_rejected_by_compiler": n_dropped,
         "quarantined_statements": len(quarantined), "quarantined_compiled": len(qsel),
-        "case_classes": dict(cnt), "difference_classes": dict(classes), "selftest": st,
+        "phase_s": phase_s, "case_classes": dict(cnt), "difference_classes": dict(classes), "selftest": st,
         "rule": "every statement the spec generates for the seed (<= 4 cases, nesting <= MaxDepth) x every subject of the universe x every "
                 "sequence of guard outcomes {T, F, R} the run reaches; compiled untyped and in <= %d typed variants restricted to the "
                 "subjects of the declared type and None; non-trivial = distinct (statement, typing, subject, guard outcomes) in which a "
                 "case is selected or an exception is expected" % MAX_TYPED,
         "samples": samples,
     })
+    if os.environ.get("VERIF_C31_DEBUG"):      # development aid: every disagreement with its descriptor
+        core.write_ndjson(os.environ["VERIF_C31_DEBUG"], [{"desc": d, "detail": det} for d, det in rep.violations] +
+                          [{"kf": k, "detail": det} for k, dets in rep.kf_hits.items() for det in dets])
     rc = rep.finish()
     cov["known_findings"] = rep.kf_summary()
     core.write_evidence(PROP, tier, seed, "model_checking", cov, time.time() - t0,
